@@ -22,6 +22,12 @@ BOUNDS = dict(quick="catalogue X n<=3,p<=2; budgets (2,1) cold; K=2 acceptance o
 def units(tier):
     us = []
     q = tier == 'quick'
+    # one real GroupBCD block step with the datafit's own block constant never increases the objective (singleton groups in
+    # reversed order: the constant must belong to the group's FEATURE, not to its position)
+    for X in ('gen32', 'corr32'):
+        for g in (0, 1):
+            us.append(Unit('C03/S/group_step[QuadraticGroup,layout=rev,X=%s,g=%d]' % (X, g), ST.u_group_step,
+                           dict(datafit='QuadraticGroup', layout='rev', X=X, g=g, descent=True), wall_s=90, timeout_ms=8000))
     comps = [('Quadratic', 'L1'), ('Quadratic', 'L1+'), ('Quadratic', 'WeightedL1'), ('Quadratic', 'L1_plus_L2'),
              ('Quadratic', 'L1_plus_L2+'), ('Quadratic', 'MCPenalty'), ('Quadratic', 'MCPenalty+'), ('Quadratic', 'SCAD'),
              ('Quadratic', 'WeightedMCPenalty'), ('Quadratic', 'IndicatorBox'), ('Quadratic', 'PositiveConstraint'),
